@@ -22,12 +22,21 @@ var allStatuses = [...]types.AuctionStatus{
 // pickSpec enumerates the concrete shape of one auction.
 func pickSpec(prefix string, id uint64) aSpec {
 	sp := aSpec{id: id, auctioneer: 0, nUsers: nd.Param("users", 2), allowAll: true}
-	// narrow variants (parameter focus): an open auction with exactly two bids of one bidder —
+	// narrow variants (parameter focus): an open auction with exactly fBids (2) bids of fUsers (1) bidders —
 	// the shape in which per-bidder accumulation over several bids shows (1 = fixed price, 2 = batch)
 	if f := nd.Param("focus", 0); f > 0 {
-		sp.nUsers, sp.nBids, sp.nEnd, sp.status = 1, 2, 1, types.AuctionStatusStarted
+		sp.nUsers, sp.nBids, sp.nEnd, sp.status = nd.Param("fUsers", 1), nd.Param("fBids", 2), 1, types.AuctionStatusStarted
 		sp.batch = f == 2
 		sp.nSched = nd.Pick(prefix+"nSched", 2)
+		if sp.batch {
+			if fe := nd.Param("fEnd", 0); fe > 0 {
+				sp.nEnd = fe
+			} else {
+				sp.nEnd = nd.Pick(prefix+"nEnd", nd.Param("maxEnd", 2)) + 1
+			}
+			sp.hasMatchedLen = sp.nEnd >= 2
+			sp.allMany = nd.Param("fMany", 0) == 1
+		}
 		return sp
 	}
 	sp.batch = nd.Pick(prefix+"batch", 2) == 1
